@@ -195,6 +195,9 @@ def run(tier):
         ok, res = common.validate_trace("Trace_Reader", "Trace_Reader.cfg", p)
         if ok:
             raise Broken("negative control: a wrong classification was accepted")
+    # every history of reads, validations, chunk requests and clear_error on one context (MC_Session): the validations judged
+    from .. import session
+    session.run_session(ck, "C09", "scan", tier, wd, rnd)
     ck.extra["rule"] = "one case = (on-disk state of a target, order of validation calls); region-state combinations, truncation points, over-long, wrong whole-data checksum, detached headers"
     ck.assumptions = ["per-chunk verdicts recomputed by the reference codec over the bytes actually present (absent bytes never match)"]
     shutil.rmtree(wd, ignore_errors=True)
